@@ -410,13 +410,28 @@ Definition false_cycle : list (bytes * bentry) :=
    message "e" [pl (TermReference (s "a") None (Some (CallArguments [] [NamedArgument (s "k") (NumberLiteral (s "1"))])))]].
 
 Ltac side := vm_compute; reflexivity.
+(* syntax-directed construction of a derivation for a concrete bundle (no function calls, variables that exist) *)
 Ltac derive :=
-  repeat first
-    [ eapply P_elements | eapply L_end | eapply L_text | eapply L_placeable | eapply X_inline
-    | eapply X_select; [ | side | ] | eapply I_string | eapply I_number
-    | eapply I_variable; side | eapply I_term | eapply A_some | eapply A_none | eapply S_nil | eapply S_cons
-    | eapply V_number | eapply V_string | eapply V_variable; side
-    | eapply R_found; [side | ] | eapply R_cyclic; side ].
+  lazymatch goal with
+  | |- eval_pattern _ _ _ _ _ _ _ _ _ _ _ _ (Pattern _) _ => eapply P_elements; derive
+  | |- eval_elements _ _ _ _ _ _ _ _ _ _ _ _ [] _ => eapply L_end
+  | |- eval_elements _ _ _ _ _ _ _ _ _ _ _ _ (TextElement _ :: _) _ => eapply L_text; derive
+  | |- eval_elements _ _ _ _ _ _ _ _ _ _ _ _ (PlaceableElement _ :: _) _ => eapply L_placeable; [derive | derive]
+  | |- eval_expr _ _ _ _ _ _ _ _ _ _ _ _ (Inline _) _ => eapply X_inline; derive
+  | |- eval_expr _ _ _ _ _ _ _ _ _ _ _ _ (Select _ _) _ => eapply X_select; [derive | side | derive]
+  | |- eval_inline _ _ _ _ _ _ _ _ _ _ _ _ (TermReference _ _ _) _ => eapply I_term; [derive | derive]
+  | |- eval_inline _ _ _ _ _ _ _ _ _ _ _ _ (VariableReference _) _ => eapply I_variable; side
+  | |- eval_value _ _ _ _ _ _ _ _ _ _ _ _ (VariableReference _) _ => eapply V_variable; side
+  | |- eval_value _ _ _ _ _ _ _ _ _ _ _ _ (NumberLiteral _) _ => eapply V_number
+  | |- eval_value _ _ _ _ _ _ _ _ _ _ _ _ (StringLiteral _) _ => eapply V_string
+  | |- eval_args _ _ _ _ _ _ _ _ _ _ _ _ None _ => eapply A_none
+  | |- eval_args _ _ _ _ _ _ _ _ _ _ _ _ (Some (CallArguments _ _)) _ => eapply A_some; [derive | cbn [map named_value]; derive]
+  | |- eval_values _ _ _ _ _ _ _ _ _ _ _ _ [] _ => eapply S_nil
+  | |- eval_values _ _ _ _ _ _ _ _ _ _ _ _ (_ :: _) _ => eapply S_cons; [derive | derive]
+  | |- expand _ _ _ _ _ _ _ _ _ _ _ _ _ ?tgt _ =>
+      let t' := eval vm_compute in tgt in
+      change tgt with t'; first [ eapply R_found; [side | derive] | eapply R_cyclic; side ]
+  end.
 
 Example C07_false_cycle_witness :
   ExSpec false_cycle None (the "e") (s "{-b}", [Cyclic], []) /\
